@@ -12,7 +12,7 @@ def posterior_native(vc):
     pb = random_problem(rng)
     n, d, x, y = pb["n"], pb["d"], pb["x"], pb["y"]
     mode = vc.choice("noise", ["y_err", "y_cov", "none", "y_err_list", "y_cov_list"])
-    if pb["kname"] in ("SE", "RQ", "RQ+SE", "CP") and mode == "none" and n > 1:
+    if pb["kname"] in ("SE", "RQ", "RQ+SE", "CP", "CP3", "CP4") and mode == "none" and n > 1:
         mode = "y_err"
     kw = {}
     if mode == "y_err":
